@@ -644,33 +644,145 @@ func rAlloc(c *Ctx, closure []*ssa.Function) {
 					continue
 				}
 				n++
-				// bounded: a dominating If compares one of the leaves (or the size) with something
-				ok := false
-				for _, b := range fn.Blocks {
-					if len(b.Instrs) == 0 || !b.Dominates(in.Block()) || b == in.Block() {
-						continue
+				// bounded: on the way the message-derived value takes into the allocation it is on
+				// the SMALL side of a comparison (leaf <= K holds on an edge that dominates the
+				// point where the value enters: the allocation itself, or the predecessor of the
+				// phi edge that carries it). A comparison whose large side leads to the allocation
+				// (`if n > hint { hint = n }`) is not a bound.
+				entry := leafEntryBlocks(sz, in.Block())
+				ok := true
+				unb := ""
+				for _, lf := range leaves {
+					ats := entry[lf]
+					if len(ats) == 0 {
+						ats = []*ssa.BasicBlock{in.Block()}
 					}
-					iff, isIf := b.Instrs[len(b.Instrs)-1].(*ssa.If)
-					if !isIf {
-						continue
-					}
-					a := AtomOf(iff)
-					if a.Y == nil {
-						continue
-					}
-					for _, lf := range append(leaves, sz) {
-						if mentions(a.X, lf) || mentions(a.Y, lf) {
-							ok = true
+					for _, at := range ats {
+						if !upperBoundedAt(fn, lf, at) && !upperBoundedAt(fn, sz, in.Block()) {
+							ok = false
+							unb = describeValue(lf)
 						}
 					}
 				}
 				sort.Strings(srcs)
 				c.Check(ok, "C11.R-alloc", FuncName(fn)+"|"+what+" sized by "+strings.Join(srcs, ","), p.Pos(InstrPos(in)),
-					orDefault(ifs(!ok, what+" with a size taken from the message ("+strings.Join(srcs, ",")+") without a dominating bound check: a few bytes make the receiver allocate an arbitrary amount"), "size from the message is compared against a bound before allocating"))
+					orDefault(ifs(!ok, what+" with a size taken from the message ("+strings.Join(srcs, ",")+"; "+unb+") that is not on the small side of any dominating comparison: a few bytes make the receiver allocate an arbitrary amount"), "size from the message is bounded by a dominating comparison before allocating"))
 			}
 		})
 	}
 	c.Min("C11.R-alloc", 1)
+}
+
+// leafEntryBlocks: for every value reachable backwards from the size through phis, the
+// blocks from which it flows into the size (the predecessor of the phi edge carrying it;
+// the allocation block when it is used directly).
+func leafEntryBlocks(sz ssa.Value, allocBlock *ssa.BasicBlock) map[ssa.Value][]*ssa.BasicBlock {
+	out := map[ssa.Value][]*ssa.BasicBlock{}
+	seen := map[ssa.Value]bool{}
+	var walk func(v ssa.Value, at *ssa.BasicBlock)
+	walk = func(v ssa.Value, at *ssa.BasicBlock) {
+		if v == nil {
+			return
+		}
+		out[v] = append(out[v], at)
+		if seen[v] {
+			return
+		}
+		seen[v] = true
+		switch x := v.(type) {
+		case *ssa.Phi:
+			for i, e := range x.Edges {
+				walk(e, x.Block().Preds[i])
+			}
+		case *ssa.BinOp:
+			walk(x.X, at)
+			walk(x.Y, at)
+		case *ssa.Convert:
+			walk(x.X, at)
+		case *ssa.ChangeType:
+			walk(x.X, at)
+		case *ssa.Extract:
+			walk(x.Tuple, at)
+		case *ssa.Call:
+			if b, ok := x.Call.Value.(*ssa.Builtin); ok && (b.Name() == "max" || b.Name() == "min") {
+				for _, a := range x.Call.Args {
+					walk(a, at)
+				}
+			}
+		case *ssa.UnOp:
+			if x.Op == token.MUL {
+				vals, _ := Origins(x)
+				for _, o := range vals {
+					if o != v {
+						walk(o, at)
+					}
+				}
+			}
+		}
+	}
+	walk(sz, allocBlock)
+	return out
+}
+
+// upperBoundedAt: some If compares v (or an expression mentioning it) with another operand and
+// the successor edge on which v is the smaller-or-equal side dominates block at.
+func upperBoundedAt(fn *ssa.Function, v ssa.Value, at *ssa.BasicBlock) bool {
+	for _, b := range fn.Blocks {
+		if len(b.Instrs) == 0 {
+			continue
+		}
+		iff, isIf := b.Instrs[len(b.Instrs)-1].(*ssa.If)
+		if !isIf {
+			continue
+		}
+		a := AtomOf(iff)
+		if a.Y == nil {
+			continue
+		}
+		inX, inY := mentions(a.X, v), mentions(a.Y, v)
+		if inX == inY {
+			continue
+		}
+		// smallWhenTrue: the atom being true puts v on the small side
+		var smallWhenTrue bool
+		switch a.Op {
+		case token.LSS, token.LEQ:
+			smallWhenTrue = inX
+		case token.GTR, token.GEQ:
+			smallWhenTrue = inY
+		case token.EQL:
+			smallWhenTrue = true // equal to the other operand: bounded by it
+		default:
+			continue
+		}
+		ts := a.TrueSucc()
+		for si, succ := range b.Succs {
+			atomTrue := si == ts
+			small := atomTrue == smallWhenTrue
+			if a.Op == token.EQL && !atomTrue {
+				small = false
+			}
+			if !small {
+				continue
+			}
+			if succ == at || edgeDom(b, succ, at) {
+				return true
+			}
+		}
+	}
+	return false
+}
+
+func edgeDom(from, succ, at *ssa.BasicBlock) bool {
+	if !succ.Dominates(at) {
+		return false
+	}
+	for _, p := range succ.Preds {
+		if p != from && !succ.Dominates(p) {
+			return false
+		}
+	}
+	return true
 }
 
 func mentions(expr, leaf ssa.Value) bool {
